@@ -284,7 +284,10 @@ where
     drop(rep_cell);
     if let Err(e) = result {
         match e {
-            TestError::Fail(_, case) => {
+            TestError::Fail(reason, case) => {
+                if std::env::var_os("VERIF_DEBUG").is_some() {
+                    eprintln!("worker {}: original failure reason: {}", args.worker, reason);
+                }
                 // re-run the minimal case to obtain its verdict
                 let rep = run_case(&case);
                 let v = rep
